@@ -126,6 +126,24 @@ def run(chk):
             chk.distinct.add(('history', tuple(order[:8])))
             if bad_h:
                 chk.violation(*bad_h)
+    # the other notation of the library (American pitch names) has been used in this process: the Humdrum codec answers as before
+    if spec:
+        try:
+            for am in ('C#4', 'Bb3', 'F##2', 'E4'):
+                kp.AmericanPitchImporter().import_pitch(am)
+            kp.transpose('Eb4', 11, input_format='american')
+        except Exception:
+            pass
+        na = 0
+        for i, (l, a, o) in enumerate(grid):
+            text, name = spec[i][3:].split('|')
+            chk.case(('after-american', l, a, o), kind='after-american')
+            r = impl_import(kp, text)
+            e = impl_export2(kp, name, o)
+            if (r != f'ok:{name}|{o}' or not e.startswith(f'ok:{text}|{text}|')) and na < 8:
+                na += 1
+                chk.violation('import' if r != f'ok:{name}|{o}' else 'export', f'after the American pitch importer was used in this process: import_pitch({text!r}) = {r!r}, '
+                              f'export twice = {e!r} (expected {name}|{o} and {text!r})', {'spelling': text, 'history': 'american-importer-first'})
     # the pitch object is the caller's: exported, then renamed / moved through its public setters, then exported again
     # it spells what a freshly built pitch of the new name and octave spells (and imports back to it)
     nv = 0
